@@ -44,14 +44,17 @@ NoOp(l, r)       == "{" \o Q("left") \o ":" \o l \o "," \o Q("right") \o ":" \o 
 
 IdxV == DOMAIN Vals
 Pick(S, k) == IF Tier = "quick" THEN {i \in S : i % k = 0 \/ i <= 6} ELSE S
-Level1 == {Obj(Vals[l], Ops[o], Vals[r], "") : l \in IdxV, o \in DOMAIN Ops, r \in Pick(IdxV, 3)}
+Thin(S, k) == {i \in S : i % k = 0 \/ i <= 6}
+Level1 == {Obj(Vals[l], Ops[o], Vals[r], "") : l \in IdxV, o \in DOMAIN Ops, r \in Thin(IdxV, IF Tier = "quick" THEN 3 ELSE 2)}
           \cup {Obj(Vals[l], Ops[o], "", "") : l \in IdxV, o \in DOMAIN Ops}
-          \cup {Obj(Vals[l], Ops[o], Vals[r], Extras[x]) : l \in Pick(IdxV, 7), o \in DOMAIN Ops, r \in Pick(IdxV, 9), x \in DOMAIN Extras}
+          \* (with the extra members the product is thinned in both tiers: 51 x 22 x 51 x 9 documents take TLC more than half an hour)
+          \cup {Obj(Vals[l], Ops[o], Vals[r], Extras[x]) : l \in Thin(IdxV, IF Tier = "quick" THEN 7 ELSE 3), o \in DOMAIN Ops,
+                                                          r \in Thin(IdxV, IF Tier = "quick" THEN 9 ELSE 4), x \in DOMAIN Extras}
           \cup {NoLeft(Ops[o], Vals[r]) : o \in DOMAIN Ops, r \in IdxV}
           \cup {NoOp(Vals[l], Vals[r]) : l \in IdxV, r \in Pick(IdxV, 5)}
           \cup {Vals[v] : v \in IdxV}
 \* one more level: a level-1 document as the left or right member
-Sample1 == LET s == SetToSeq(Level1) IN {s[RandomElement(1..Len(s))] : i \in 1..(IF Tier = "quick" THEN 300 ELSE 3000)}
+Sample1 == LET s == SetToSeq(Level1) IN {s[RandomElement(1..Len(s))] : i \in 1..(IF Tier = "quick" THEN 300 ELSE 1500)}
 Level2 == {Obj(d, Ops[o], Vals[r], "") : d \in Sample1, o \in {1, 3, 5, 6, 9, 10, 18}, r \in {1, 3, 9, 24}}
           \cup {Obj(Vals[l], Ops[o], d, "") : d \in Sample1, o \in {1, 3, 4, 6, 18}, l \in {1, 3, 9, 17}}
 Docs == LET s == SetToSeq(Level1 \cup Level2) IN [i \in DOMAIN s |-> [id |-> i, doc |-> s[i]]]
